@@ -311,11 +311,20 @@ func (w *stWorld) commit(op stOp, t int, rec *[]stRec) {
 	}
 	w.ledger.OnCall = func(string, atree.SlabID) any { return w.state() }
 	var err error
-	if op.Mode == "det" {
-		err = w.st.FastCommit(w.workersFor(op))
-	} else {
-		err = w.st.NondeterministicFastCommit(w.workersFor(op))
-	}
+	func() {
+		// a panic inside the library while committing is a behaviour of the real code: recorded as a commit that ended
+		// with an uncategorised error (the trace specification demands an external error), not a harness failure
+		defer func() {
+			if e := recover(); e != nil {
+				err = fmt.Errorf("panic in commit: %v", e)
+			}
+		}()
+		if op.Mode == "det" {
+			err = w.st.FastCommit(w.workersFor(op))
+		} else {
+			err = w.st.NondeterministicFastCommit(w.workersFor(op))
+		}
+	}()
 	w.ledger.OnCall = nil
 	w.ledger.SetFaultPlan()
 	if rec == nil {
